@@ -49,20 +49,33 @@ EXPLANATION = (
     "on the whole result, with a target set that protects the true targets - spin-labelled ones and provided targets "
     "that occur twice included; func.evaluate_deltas itself is evaluated from its source, inside simplify_unitary and directly "
     "on model products against the contract written down here: killable index substituted unless protected, a delta whose two "
-    "indices are contracted and sit on no other object is kept because its double sum is the dimension of the space). "
-    "Thorough tier: "
+    "indices are contracted and sit on no other object is kept because its double sum is the dimension of the space); "
+    "the same target indices hold for every delta of a product, however the earlier ones were evaluated: evaluate_deltas is "
+    "evaluated on ~900 generated products of two and three deltas over four indices (disjoint pairs, chains, stars, triangles; "
+    "remainder objects on none, some or all indices; every subset of the indices as explicit targets, the empty set and the sum "
+    "convention; sums of products; an index with a spin label next to indices without), each result compared with the value "
+    "of the input for every assignment of the targets (contracted indices summed) and with the form of the contract (killable "
+    "index removed unless target, else preferred index removed if no target and the information is equal, a delta between two "
+    "targets kept), so that every restart on the remaining deltas and every term of a sum is seen to carry the targets it was "
+    "given; simplify_unitary with delta evaluation on terms that generate two and three deltas with provided targets. "
+    "Thorough tier: the generated products of deltas for all pairs and triples of deltas over four indices (~9700); "
     "the same three comparisons on every generated term with 2-4 unitary factors over three indices, an optional "
     "remainder object or delta and optional provided targets (also the empty set), each also with delta evaluation requested "
     "(value only).")
 ASSUMPTIONS = [
-    "bounded: the scenarios listed in the module (thorough: all terms of 2-4 unitary factors over 3 indices with an optional "
+    "bounded: the scenarios listed in the module and the generated products of deltas (thorough: all terms of 2-4 unitary factors over 3 indices with an optional "
     "remainder object of <= 2 indices or a delta and <= 1 provided target or the empty provided set); one index space, uniform "
-    "spin per scenario",
+    "spin per simplify_unitary scenario",
     "the containers are modelled: Expr/Term/Obj are records (objects, exponent, idx, base_and_exponent, assumptions), products "
     "merge equal bases like sympy, KroneckerDelta(p, p) = 1 and delta**n = delta; sympy's isinstance(Add/Mul/Pow), .args, "
     ".func, .atoms(Index), .has, .subs(index, index), Mul/Add.make_args are modelled on these products; get_symbols(<str>) yields spin-less "
     "indices; func.evaluate_deltas and the KroneckerDelta properties it reads are evaluated from their source",
     "orthogonality is represented by one fixed rational rotation matrix (non-symmetric), dimension 2",
+    "evaluate_deltas: products of at most three deltas over four indices of one space (quick: the pairs and seven triples "
+    "listed in evd_family, thorough: all pairs and triples), one remainder out of a fixed list; a spin label acts only as "
+    "information (indices with and without label range over the same two values in the value comparison, only '' and 'a' mixed); "
+    "a bare delta is no product and is returned as it is (documented behaviour); the deltas of a model product are visited in "
+    "the canonical order of the model (all index namings are generated, so every delta is the first one in some product)",
     "excluded from the decided domain: terms without provided targets whose Einstein targets change because delta_pp = 1 "
     "removes two occurrences (U_ki^2 X_i -> X_i is the documented upstream behaviour)",
 ]
@@ -277,21 +290,46 @@ def substitute(d, old, new):
     return {b: (1 if is_delta(b) and e >= 1 else e) for b, e in out.items() if e != 0}
 
 
+def preferred_killable(b):
+    """(preferred, killable, equal information) of a delta of one space: with equal spin labels the canonically first index is
+    preferred and both carry the same information; an index with a spin label carries more than one without (preferred)."""
+    p, k = b.args[1]
+    sp, sk = key_spin(p), key_spin(k)
+    if sp == sk:
+        return p, k, True
+    if sk and not sp:
+        return k, p, False
+    if sp and not sk:
+        return p, k, False
+    raise AnalysisError(f"reference: delta between the spin labels {sp!r} and {sk!r} is outside the model")
+
+
+def key_spin(key):
+    return key.partition("_")[2]
+
+
 def model_evaluate_deltas(monos, protected):
-    """Contract of func.evaluate_deltas on a sum of products (one space, equal spin: first index preferred)."""
+    """Contract of func.evaluate_deltas on a sum of products (one space).  In every product, with the SAME set of target
+    indices for every delta from the first to the last (provided targets, else the indices that sit on a single object of
+    the product as it was handed over): the killable index is replaced by the preferred one unless it is a target index; else
+    the preferred one by the killable one if it is no target index and both carry equal information; a delta between two
+    target indices stays; a delta whose two indices are contracted and sit on no other object stays (its double sum is the
+    dimension of the space).  A bare delta is no product and is returned as it is."""
     out = []
     for c, d in monos:
         tg = einstein_per_object(d) if protected is None else protected
         while True:
+            if c == 1 and len(d) == 1 and all(is_delta(b) and e == 1 for b, e in d.items()):
+                break
             for b in sorted((b for b in d if is_delta(b) and d[b] >= 1), key=repr):
-                p, k = b.args[1]
+                p, k, equal = preferred_killable(b)
                 if k not in tg:
                     if p not in tg and not any(p in keys_of(o) or k in keys_of(o) for o in d if o != b):
                         # both indices contracted and on no other object: sum_pk delta_pk is the dimension, the delta stays
                         continue
                     d = substitute(d, k, p)
                     break
-                if p not in tg:
+                if p not in tg and equal:
                     d = substitute(d, p, k)
                     break
             else:
@@ -538,7 +576,13 @@ def sx_freeze(v):
 
 # ------------------------------------------------------------------------------------------------ scenarios
 
-def parse_term(s, spin=""):
+def index_key(ch, spin="", spins=None):
+    """Key of the index with the letter ch: its name, '_' and its spin label (spins: letter -> spin overrides spin)."""
+    sp = spin if spins is None or ch not in spins else spins[ch]
+    return ch + ("_" + sp if sp else "")
+
+
+def parse_term(s, spin="", spins=None):
     """'-1/2 X:ia U:ki^2 W:m^-1' -> (coefficient, [(base, exponent)])."""
     coeff, facs = Fraction(1), []
     for tok in s.split():
@@ -547,19 +591,19 @@ def parse_term(s, spin=""):
             continue
         name, rest = tok.split(":")
         idx, _, ex = rest.partition("^")
-        keys = [ch + ("_" + spin if spin else "") for ch in idx]
+        keys = [index_key(ch, spin, spins) for ch in idx]
         facs.append((delta(*keys) if name == "delta" else tens(name, keys), int(ex) if ex else 1))
     return coeff, facs
 
 
 class Scenario:
     def __init__(self, sid, rule, what, terms, target=None, spin="", t_name=UNAME, ed=False, changed=None, raises=None,
-                 real=False, sym_tensors=(), antisym_tensors=(), as_term=False):
+                 real=False, sym_tensors=(), antisym_tensors=(), as_term=False, spins=None):
         self.sid, self.rule, self.what = sid, rule, what
         self.spin, self.t_name, self.ed, self.changed, self.raises = spin, t_name, ed, changed, raises
-        self.terms = [parse_term(t, spin) for t in ([terms] if isinstance(terms, str) else terms)]
+        self.terms = [parse_term(t, spin, spins) for t in ([terms] if isinstance(terms, str) else terms)]
         self.text = " + ".join([terms] if isinstance(terms, str) else terms)
-        tg = None if target is None else tuple(sorted(ch + ("_" + spin if spin else "") for ch in target))
+        tg = None if target is None else tuple(sorted(index_key(ch, spin, spins) for ch in target))
         self.akey = (real, tuple(sorted(sym_tensors)), tuple(sorted(antisym_tensors)), tg)
         self.as_term = as_term
 
@@ -874,6 +918,19 @@ SCENARIOS = [
     Scenario("evd-trace-second", "R20c", "delta evaluation requested, trace over second positions next to a remainder", "U:kj U:lj X:im Y:m", target="i", ed=True),
     Scenario("evd-repeat", "R20c", "delta evaluation requested, the same delta generated twice (Einstein targets)", "U:ij U:ik U:lj U:lk", ed=True),
     Scenario("evd-provided-none", "R20c", "delta evaluation requested, provided targets not on the delta", "U:ki U:kj X:il Y:jl", target="l", ed=True),
+    # several generated deltas: the provided targets hold for every one of them, whichever way the earlier ones were evaluated
+    Scenario("evd-two-preferred", "R20c", "delta evaluation requested, two deltas, the first loses its preferred index, the second "
+             "connects provided targets", "U:mi U:mj X:i U:nk U:nl Y:kl", target="jkl", ed=True),
+    Scenario("evd-two-killable", "R20c", "delta evaluation requested, two deltas, the first loses its killable index, the second "
+             "connects provided targets", "U:mi U:mj X:j U:nk U:nl Y:kl", target="ikl", ed=True),
+    Scenario("evd-two-kept-first", "R20c", "delta evaluation requested, two deltas, the first connects provided targets, the second "
+             "loses its preferred index", "U:mi U:mj Y:ij U:nk U:nl X:k", target="ijl", ed=True),
+    Scenario("evd-three", "R20c", "delta evaluation requested, three deltas: preferred index removed, killable index removed, "
+             "provided targets connected", "U:mi U:mj X:i U:nk U:nl Y:kl U:ab U:ac Z:c", target="bjkl", ed=True),
+    Scenario("evd-two-einstein", "R20c", "delta evaluation requested, two deltas, targets by sum convention",
+             "U:mi U:mj X:i U:nk U:nl Y:kl", ed=True),
+    Scenario("evd-two-terms", "R20c", "delta evaluation requested, two terms with two deltas each, provided targets",
+             ["U:mi U:mj X:i U:nk U:nl Y:kl", "2 U:mi U:mj X:i U:nk U:nl Z:lk"], target="jkl", ed=True),
 ]
 
 
@@ -889,7 +946,7 @@ def scenarios(ctx, rule):
         except _OutOfDomain as e:
             raise AnalysisError(f"C20 scenario {scn.sid} is outside the decided domain: {e}")
         n += 1
-    ctx.floor(rule, "model expressions evaluated", n, {"R20a": 32, "R20b": 13, "R20c": 24}[rule])
+    ctx.floor(rule, "model expressions evaluated", n, {"R20a": 32, "R20b": 13, "R20c": 30}[rule])
 
 
 def r20c_request(ctx):
@@ -963,6 +1020,31 @@ EVD_CASES = [
 ]
 
 
+def evd_case(ctx, fnnode, terms, tgt, spin="", spins=None):
+    """func.evaluate_deltas, evaluated from its source, on one model sum of products with the target indices ``tgt`` (None:
+    sum convention).  -> (description, problem | None, result, contract result, value kept?, form of the contract?)."""
+    scn = Scenario("evd", "R20c", "", terms, target=tgt, spin=spin, spins=spins)
+    run = Run(ctx, "evaluate_deltas")
+
+    def make():
+        run.w = World()
+        run.in_evd = True   # the function itself is the subject here: not logged, not re-entered through the hook
+        return dict(expr=from_monos(scn.monos()), target_idx=None if tgt is None else [run.w.ix(k) for k in scn.akey[3]])
+    outs = run.sx.run(fnnode, make)
+    what = f"evaluate_deltas({scn.text}, targets {'by sum convention' if tgt is None else '(' + ','.join(scn.akey[3]) + ')'})"
+    if len(outs) != 1 or outs[0].kind != "return" or not (is_num(outs[0].value) or _is_value(outs[0].value)):
+        return what, f"no single value: {[repr(o)[:200] for o in outs]}", None, None, False, False
+    got = monomials(outs[0].value)
+    prot = None if tgt is None else set(scn.akey[3])
+    want = model_evaluate_deltas(scn.monos(), prot)
+    tg = set(scn.akey[3]) if tgt is not None else set().union(*[einstein_per_object(d) for c, d in scn.monos()])
+    v_in = value(scn.monos(), tg, UNAME)
+    if value(want, tg, UNAME) != v_in:
+        raise AnalysisError(f"C20: the contract of evaluate_deltas written down in the module does not preserve the value of "
+                            f"{scn.text} [targets {tgt}]")
+    return what, None, got, want, value(got, tg, UNAME) == v_in, expr_key(got) == expr_key(want)
+
+
 def r20c_evaluate_deltas(ctx):
     """func.evaluate_deltas (evaluated from its source) on model products: the value for every assignment of the targets and
     the form demanded by the contract written down in ``model_evaluate_deltas`` (a delta whose two indices are contracted and
@@ -971,32 +1053,97 @@ def r20c_evaluate_deltas(ctx):
     fnnode = ctx.model.fn("func:evaluate_deltas")
     n = 0
     for terms, tgt, spin in EVD_CASES:
-        scn = Scenario("evd", rule, "", terms, target=tgt, spin=spin)
-        run = Run(ctx, "evaluate_deltas")
-
-        def make():
-            run.w = World()
-            run.in_evd = True   # the function itself is the subject here: not logged, not re-entered through the hook
-            return dict(expr=from_monos(scn.monos()), target_idx=None if tgt is None else [run.w.ix(k) for k in scn.akey[3]])
-        outs = run.sx.run(fnnode, make)
-        what = f"evaluate_deltas({scn.text}, targets {'by sum convention' if tgt is None else '(' + ','.join(scn.akey[3]) + ')'})"
+        text = " + ".join(terms)
+        what, problem, got, want, v_ok, f_ok = evd_case(ctx, fnnode, terms, tgt, spin)
         n += 1
-        if len(outs) != 1 or outs[0].kind != "return" or not (is_num(outs[0].value) or _is_value(outs[0].value)):
-            ctx.bad(rule, fnnode, f"{what}: no single value: {[repr(o)[:200] for o in outs]}", key=f"evd {scn.text} {tgt}")
+        if problem:
+            ctx.bad(rule, fnnode, f"{what}: {problem}", key=f"evd {text} {tgt}")
             continue
-        got = monomials(outs[0].value)
-        prot = None if tgt is None else set(scn.akey[3])
-        want = model_evaluate_deltas(scn.monos(), prot)
-        tg = set(scn.akey[3]) if tgt is not None else set().union(*[einstein_per_object(d) for c, d in scn.monos()])
-        v_in = value(scn.monos(), tg, UNAME)
-        if value(want, tg, UNAME) != v_in:
-            raise AnalysisError(f"C20: the contract of evaluate_deltas written down in the module does not preserve the value of {scn.text}")
-        ctx.check(rule, fnnode, value(got, tg, UNAME) == v_in, f"{what} = {show_monos(got)}: value unchanged",
+        ctx.check(rule, fnnode, v_ok, f"{what} = {show_monos(got)}: value unchanged",
                   f"{what} = {show_monos(got)}: the value changes (a sum over an index that only sits on the delta is lost or a "
-                  f"target index removed); expected {show_monos(want)}", key=f"evd value {scn.text} {tgt}")
-        ctx.check(rule, fnnode, expr_key(got) == expr_key(want), f"{what}: form {show_monos(want)}",
-                  f"{what} = {show_monos(got)}, the contract demands {show_monos(want)}", key=f"evd form {scn.text} {tgt}")
+                  f"target index removed); expected {show_monos(want)}", key=f"evd value {text} {tgt}")
+        ctx.check(rule, fnnode, f_ok, f"{what}: form {show_monos(want)}",
+                  f"{what} = {show_monos(got)}, the contract demands {show_monos(want)}", key=f"evd form {text} {tgt}")
     ctx.floor(rule, "products handed to evaluate_deltas", n, 21)
+
+
+def _subsets(letters):
+    return ["".join(c) for r in range(len(letters) + 1) for c in itertools.combinations(letters, r)]
+
+
+def evd_family(tier):
+    """Products of two and three deltas with explicit target indices (every subset of the indices, the empty set included) and
+    the sum convention: (family, terms, targets, spins).  Every way through the function is contained for every delta of the
+    product in every position of the processing order - killable index removed, preferred index removed, kept because both
+    are targets, kept because the information differs, kept because nothing else carries its indices - followed by deltas
+    whose fate depends on the targets (a delta between two targets that also sit on other objects has to stay), so every
+    restart on the remaining deltas is seen to work with the targets it was given."""
+    idx4 = "ijkl"
+    pairs4 = ["".join(c) for c in itertools.combinations(idx4, 2)]
+    full = tier == "thorough"
+    # two deltas over four indices
+    two = [(a, b) for a, b in itertools.combinations(pairs4, 2)]
+    rem2 = ["", "X:i X:j X:k X:l", "X:ij Y:kl", "X:ik Y:jl", "X:i Y:kl", "X:j Y:kl", "X:k Y:ij", "X:l Y:ij", "X:il Y:jk",
+            "X:i X:j", "X:k X:l", "2 Y:jk", "X:ijkl"]
+    if not full:
+        two = [(a, b) for a, b in two if not set(a) & set(b)] + [("ij", "jk"), ("ij", "ik"), ("ik", "jk"), ("jk", "kl")]
+        rem2 = rem2[:6]
+    for a, b in two:
+        used = "".join(sorted(set(a + b)))
+        for rem in rem2:
+            for tg in [None] + _subsets(idx4 if full else used):
+                yield "two deltas", [f"delta:{a} delta:{b} {rem}".strip()], tg, None
+    # three deltas over four indices (chains, stars, triangles, a disjoint pair and a bridge)
+    three = list(itertools.combinations(pairs4, 3))
+    rem3 = ["X:i X:j X:k X:l", "", "X:ij Y:kl", "X:il Y:jk", "X:i Y:kl", "X:l Y:ij"]
+    if not full:
+        three = [("ij", "jk", "kl"), ("ij", "ik", "il"), ("ij", "ik", "jk"), ("ij", "jk", "kl")[::-1], ("ij", "kl", "jk"),
+                 ("il", "jl", "kl"), ("ik", "jl", "kl")]
+        rem3 = rem3[:2]
+    for ds in three:
+        for rem in rem3:
+            for tg in [None] + _subsets(idx4):
+                yield "three deltas", [" ".join(f"delta:{d}" for d in ds) + (" " + rem if rem else "")], tg, None
+    # two sums: the targets hold for every term
+    for tg in _subsets("ijkl" if full else "jkl"):
+        yield "sum of products", ["delta:ij X:i delta:kl Y:kl", "2 delta:ik delta:jl X:i Y:kl"], tg, None
+    # mixed information: an index with a spin label next to indices without (only the index without label may go)
+    mixed = [("ij", "kl"), ("ij", "jk"), ("ik", "jk")] if not full else two
+    for a, b in mixed:
+        used = "".join(sorted(set(a + b)))
+        for spins in ({"j": "a"}, {"i": "a"}, {"i": "a", "j": "a"}, {"k": "a"}, {"j": "a", "k": "a"}) if full else ({"j": "a"}, {"i": "a"}):
+            for rem in ("X:i X:j X:k X:l", "X:i Y:kl") if not full else rem2[:6]:
+                for tg in _subsets(used):
+                    yield "mixed information", [f"delta:{a} delta:{b} {rem}".strip()], tg, spins
+
+
+def r20c_evaluate_deltas_family(ctx, tier):
+    """The generated products of ``evd_family``: value against the sum over the contracted indices and form of the contract."""
+    rule = "R20c"
+    fnnode = ctx.model.fn("func:evaluate_deltas")
+    n, bad = {}, {}
+    for fam, terms, tgt, spins in evd_family(tier):
+        what, problem, got, want, v_ok, f_ok = evd_case(ctx, fnnode, terms, tgt, spins=spins)
+        n[fam] = n.get(fam, 0) + 1
+        if problem:
+            bad.setdefault((fam, "result"), []).append(f"{what}: {problem}")
+            continue
+        if not v_ok:
+            bad.setdefault((fam, "value"), []).append(f"{what} = {show_monos(got)}, expected {show_monos(want)}")
+        if not f_ok:
+            bad.setdefault((fam, "form"), []).append(f"{what} = {show_monos(got)}, the contract demands {show_monos(want)}")
+    for fam, cnt in n.items():
+        for aspect, fact in (("result", "a single value"),
+                             ("value", "value unchanged for every assignment of the target indices (contracted indices summed)"),
+                             ("form", "every delta treated with the target indices handed over (form of the contract)")):
+            msgs = bad.get((fam, aspect), [])
+            ctx.check(rule, fnnode, not msgs, f"evaluate_deltas on {cnt} generated products ({fam}): {fact}",
+                      f"evaluate_deltas on {cnt} generated products ({fam}): {fact} fails for {len(msgs)}, e.g. " + " || ".join(msgs[:2]),
+                      key=f"evd family {fam} {aspect}")
+    total = sum(n.values())
+    ctx.floor(rule, "generated products of deltas handed to evaluate_deltas", total, 3000 if tier == "thorough" else 300)
+    if tier == "thorough":
+        ctx.note(f"evaluate_deltas family: {total} generated products evaluated")
 
 
 # ------------------------------------------------------------------------------------------------ thorough sweep
@@ -1073,8 +1220,11 @@ def run(ctx):
         r20c_request(ctx)
         r20c_term_tables(ctx)
         r20c_evaluate_deltas(ctx)
+        r20c_evaluate_deltas_family(ctx, "quick")
 
 
 def run_thorough(ctx):
+    if ctx.want("R20c"):
+        r20c_evaluate_deltas_family(ctx, "thorough")
     if ctx.want("R20a") or ctx.want("R20b") or ctx.want("R20c"):
         sweep(ctx)
